@@ -73,13 +73,16 @@ enum Cause : std::uint64_t
   BadListener,
   TlsFailure,
   HandshakeTimeout,
+  TlsNotConfigured,
+  Unreachable,
+  FdExhausted,
   kCauseMax
 };
 inline const char *causeName(std::uint64_t c)
 {
   static const char *n[] = {"?",          "app-close",    "peer-fin",     "peer-rst", "refused",
                             "unresolvable", "connect-timeout", "backpressure", "idle-gc",  "stop",
-                            "icmp-refused", "bad-listener", "tls-failure", "tls-handshake-timeout"};
+                            "icmp-refused", "bad-listener", "tls-failure", "tls-handshake-timeout", "tls-not-configured", "unreachable", "fd-exhausted"};
   return c < kCauseMax ? n[c] : "?";
 }
 
